@@ -100,6 +100,8 @@ SPECS = {
         "runner_vo": "Run/LruRun.v",
         "harness": [
             {"component": "lru", "args": [], "quick": 64, "thorough": 640},
+            # handler level, real clock: an idle session is not used again (monitor only)
+            {"component": "hnd", "args": ["--focus", "c15"], "quick": 24, "thorough": 200, "correspondence": False},
         ],
         "trusted_base": [
             "modelled, not verified: std::time::Instant (time is an explicit argument of every model operation; the harness runs the real cache in real time with ttl 100 ms on a 40 ms grid, brackets every call with measured instants and reads the stored instants back through the hook LruTimeCache::verif_dump), hashlink::LinkedHashMap (modelled as a list in link order: insert/to_back move an entry to the back, pop_front removes the front)",
